@@ -56,6 +56,13 @@ def quantities(B, case):
         ts = ca.vec(ts)
         if g.get("localize_t0"):
             out.append(("t0loc", ts[1:]))
+            if g.get("localize_T") or g.get("class") == "Free":
+                # T_local is not reachable through any public read-back when the grid itself is made of
+                # t0_local variables: the method's own list is used to address these variables
+                Tl = ocp._method.T_local
+                Tl = Tl if g.get("class") == "Free" else Tl[1:]
+                if Tl:
+                    out.append(("Tloc", ca.vcat(Tl)))
         else:
             d = ts[1:] - ts[:-1]
             out.append(("Tloc", d if g.get("class") == "Free" else d[1:]))
